@@ -52,6 +52,21 @@ def run(patch, prop):
 
 
 def main():
+    # evidence files must describe runs on the unchanged tree: keep them aside while checks run on mutated trees
+    import shutil, tempfile
+    backup = tempfile.mkdtemp(prefix="evidence_backup_", dir=VERIF)
+    for fn in os.listdir(os.path.join(VERIF, "evidence")):
+        if fn.endswith(".json"):
+            shutil.copy(os.path.join(VERIF, "evidence", fn), backup)
+    try:
+        _main()
+    finally:
+        for fn in os.listdir(backup):
+            shutil.copy(os.path.join(backup, fn), os.path.join(VERIF, "evidence", fn))
+        shutil.rmtree(backup, ignore_errors=True)
+
+
+def _main():
     rows = []
     only = [a for a in sys.argv[1:] if not a.startswith("--")]
     for name in sorted(os.listdir(SEEDED)):
